@@ -108,6 +108,62 @@ def h_send(I, L):
     return [w.frames[0]]
 
 
+def h_history_resend(I, n):
+    """Session history: n sends (application / heartbeat), then an inbound ResendRequest: every
+    frame the connection writes while replaying (retransmissions with PossDupFlag, gap fills) goes
+    through the reference framer."""
+    from checks import c05
+    from vfx.env import inbound, install_loop, raw_for
+    install_loop()
+    first = I.int("next_out", 1, 7)
+    c = mkconn(ConnectionState.ACTIVE, ConnectionRole.INITIATOR, 5, first)
+    w = c._socket_writer
+    for k in range(n):
+        if I.bool(f"app{k}"):
+            run(c.send_msg(FIXMessage("D", {11: I.str(f"clord{k}", 1, 2), 58: "text"})))
+        else:
+            run(c.send_msg(FIXMessage(FMsg.HEARTBEAT)))
+    begin = I.int("begin", 1, 9)
+    I.assume(begin < first + n)
+    run(c._process_message(inbound("2", 5, {7: begin, 16: 0}), raw_for("2", 5)))
+    I.check(len(c.log.exceptions) == 0, f"servicing the ResendRequest raised: {c.log.exceptions[:1]}")
+    for f in w.frames:
+        _frame_ok(I, f, "frame written during the session history")
+    if len(w.frames) > n:
+        I.goal("replayed")
+    return [len(w.frames)]
+
+
+def h_history_step(I, state, kind):
+    """Session history: one arbitrary inbound message in an arbitrary logged-on state (C04's step
+    harness); every frame written in reply (Heartbeat, ResendRequest, gap fill, Logout) is framed."""
+    from checks import c04
+    c, nin, nout, wm = c04.prestate(I, state, 2)
+    s = c04.step(I, c, kind, 0, 2)
+    for f in s["frames"]:
+        _frame_ok(I, f, f"frame written in reply to an inbound {kind}")
+    I.goal("stepped")
+    return [len(s["frames"])]
+
+
+def h_history_session(I):
+    """Logon exchange (acceptor side), TestRequest from the watchdog, Logout on disconnect."""
+    from vfx.env import inbound, install_loop, raw_for
+    install_loop()
+    nin = I.int("next_in", 1, 9)
+    c = mkconn(ConnectionState.NETWORK_CONN_ESTABLISHED, ConnectionRole.UNKNOWN, nin, I.int("next_out", 1, 99))
+    w = c._socket_writer
+    seq = nin + I.choice("logon_seq_offset", 2)
+    run(c._process_message(inbound("A", seq, {98: 0, 108: I.int("heartbeat", 1, 99)}), raw_for("A", seq)))
+    if c._connection_state == ConnectionState.ACTIVE:
+        run(c.send_test_req())
+        run(c.disconnect(ConnectionState.DISCONNECTED_WCONN_TODAY, logout_message=I.str("logout_text", 0, 1)))
+        I.goal("framed-session")
+    for f in w.frames:
+        _frame_ok(I, f, "session-level frame")
+    return [len(w.frames)]
+
+
 def cells(tier):
     quick = tier == "quick"
     out = []
@@ -125,6 +181,17 @@ def cells(tier):
             out.append(Cell(f"group/{gkey}/{sname}", (lambda I, g=gkey, s=spec: h_group(I, g, s, 2, 2)),
                             dict(group=gkey, shape=sname, symbolic_values=2, values=vb.format(2)),
                             goals=["framed"], regions=reg))
+    from checks import c04
+    for n in ((2,) if quick else (2, 3)):
+        out.append(Cell(f"history/resend/{n}", (lambda I, n=n: h_history_resend(I, n)),
+                        dict(sends=n, kinds="application (symbolic ClOrdID) / heartbeat", begin_seq_no="symbolic", next_out="symbolic in [1,7]"),
+                        goals=["framed", "replayed"], budget_s=1800))
+    for sname, st in c04.STATES.items():
+        for kind in (("testrequest", "app", "gapfill") if quick else c04.KINDS):
+            out.append(Cell(f"history/step/{sname}/{kind}", (lambda I, st=st, kind=kind: h_history_step(I, st, kind)),
+                            dict(state=sname, inbound=kind, counters="symbolic, 2 digits"), goals=["stepped"], regions=reg, budget_s=1800))
+    out.append(Cell("history/session", h_history_session, dict(logon="MsgSeqNum expected / one above; HeartBtInt symbolic", then="TestRequest, Logout with symbolic text"),
+                    goals=["framed-session"], budget_s=1800))
     out.append(Cell("send_msg", lambda I: h_send(I, 3 if quick else 4),
                     dict(values=vb.format(3 if quick else 4), counter="< 10^6",
                          kinds=["D", "0", "5", "4"], state="ACTIVE"), goals=["framed"], regions=reg))
